@@ -515,7 +515,7 @@ func hsOne(ci int, cs caseSpec, idx int, a *agg) {
 	}
 	endCall()
 	mk := func(sig, what string, detail any) {
-		violation(vrec{Case: cs.ID, Idx: idx, Sig: sig, What: what, Hex: hexOf(res.mutated), Len: len(res.mutated), Detail: detail})
+		violation(vrec{Case: cs.ID, Idx: idx, Sig: sig, What: what, Hex: hexOf(res.mutated), Len: len(res.mutated), Detail: detail, Raw: res.mutated})
 	}
 	if res.watchdog {
 		a.add("trivial: watchdog", false, 1)
@@ -589,7 +589,7 @@ func hsJobs() []job {
 	}
 	var jobs []job
 	if id := "hs/directed/accept/preauth-array-bomb"; want(id) {
-		jobs = append(jobs, job{name: "hs-preauth-bomb", mode: "hs", memKB: 1024 << 10, wall: 10 * time.Minute, procs: 2,
+		jobs = append(jobs, job{name: "hs-preauth-bomb", mode: "hs", memKB: 1024 << 10, wall: time.Duration(hk.Pick(420, 1200)) * time.Second, procs: 2,
 			cases: []caseSpec{{ID: id, Target: "hs", Class: "preauth-array-bomb", Side: "accept", N: 1, Only: -1}}})
 	}
 	if len(cases) == 0 {
@@ -604,7 +604,7 @@ func hsJobs() []job {
 		for i := k; i < len(cases); i += nj {
 			cs = append(cs, cases[i])
 		}
-		jobs = append(jobs, job{name: fmt.Sprintf("hs-%02d", k), mode: "hs", memKB: 1024 << 10, wall: 10 * time.Minute, cases: cs, procs: 2})
+		jobs = append(jobs, job{name: fmt.Sprintf("hs-%02d", k), mode: "hs", memKB: 1024 << 10, wall: time.Duration(hk.Pick(420, 1200)) * time.Second, cases: cs, procs: 2})
 	}
 	return jobs
 }
